@@ -114,3 +114,78 @@ theorem goInsertionSort_head_min (less : α → α → Bool) (hl : LessLaws less
     exact hs.1 x hm'
 
 end GoNeat
+
+/-! ### `goSort` (Model/GoSort.lean): the checked wrapper around the transliterated pdqsort.
+    The three facts below hold unconditionally - the pdq branch is only taken when its result passed the
+    executable "sorted permutation" check, every other case is `goInsertionSort`. -/
+namespace GoNeat
+variable {α : Type}
+
+theorem goSort_small (less : α → α → Bool) (l : List α) (h : l.length ≤ 12) : goSort less l = goInsertionSort less l := by
+  simp [goSort, h]
+
+theorem sortedByB_iff (less : α → α → Bool) (l : List α) : sortedByB less l = true ↔ SortedBy less l := by
+  induction l with
+  | nil => simp [sortedByB, SortedBy]
+  | cons x xs ih =>
+    simp only [sortedByB, SortedBy, Bool.and_eq_true, List.all_eq_true, Bool.not_eq_eq_eq_not, Bool.not_true,
+      List.pairwise_cons]
+    rw [ih]; rfl
+
+theorem filterMap_getElem?_range (l : List α) : (List.range l.length).filterMap (fun i => l[i]?) = l := by
+  induction l with
+  | nil => rfl
+  | cons x xs ih =>
+    rw [List.length_cons, List.range_succ_eq_map, List.filterMap_cons]
+    simp only [List.getElem?_cons_zero, List.filterMap_map]
+    congr 1
+
+theorem goSortPdq?_spec (less : α → α → Bool) (l r : List α) (h : goSortPdq? less l = some r) :
+    r.Perm l ∧ SortedBy less r := by
+  unfold goSortPdq? at h
+  simp only [List.getElem?_toArray] at h
+  split at h
+  · rename_i hc
+    simp only [Bool.and_eq_true] at hc
+    cases h
+    refine ⟨?_, (sortedByB_iff _ _).mp hc.2⟩
+    have hp := (List.isPerm_iff.mp hc.1).filterMap (fun i => l[i]?)
+    rw [filterMap_getElem?_range] at hp
+    exact hp
+  · cases h
+
+theorem goSort_perm (less : α → α → Bool) (l : List α) : (goSort less l).Perm l := by
+  unfold goSort
+  split
+  · exact goInsertionSort_perm less l
+  · split
+    · rename_i r h; exact (goSortPdq?_spec less l r h).1
+    · exact goInsertionSort_perm less l
+
+theorem goSort_sorted (less : α → α → Bool) (hl : LessLaws less) (l : List α) : SortedBy less (goSort less l) := by
+  unfold goSort
+  split
+  · exact goInsertionSort_sorted less hl l
+  · split
+    · rename_i r h; exact (goSortPdq?_spec less l r h).2
+    · exact goInsertionSort_sorted less hl l
+
+theorem goSort_mem (less : α → α → Bool) (l : List α) (z : α) : z ∈ goSort less l ↔ z ∈ l :=
+  (goSort_perm less l).mem_iff
+
+theorem goSort_length (less : α → α → Bool) (l : List α) : (goSort less l).length = l.length :=
+  (goSort_perm less l).length_eq
+
+/-- the head of the sorted list is minimal for `less`: nothing in the input is strictly less than it -/
+theorem goSort_head_min (less : α → α → Bool) (hl : LessLaws less) (l : List α) (top : α) (rest : List α)
+    (h : goSort less l = top :: rest) (hirr : less top top = false) : ∀ x ∈ l, less x top = false := by
+  intro x hx
+  have hs := goSort_sorted less hl l
+  rw [h] at hs
+  have hm : x ∈ top :: rest := h ▸ (goSort_perm less l).mem_iff.mpr hx
+  rcases List.mem_cons.mp hm with rfl | hm'
+  · exact hirr
+  · simp only [SortedBy, List.pairwise_cons] at hs
+    exact hs.1 x hm'
+
+end GoNeat
